@@ -29,7 +29,7 @@ def sf_cases(draw):
     a, b = draw(st.integers(2, 48)), draw(st.integers(2, 48))
     if draw(st.booleans()):
         b = a
-    kind = draw(st.sampled_from(["noise", "ramp", "noise", "quad", "column_offsets"]))
+    kind = draw(st.sampled_from(["noise", "ramp", "noise", "quad", "column_offsets", "counts"]))
     step = draw(st.one_of(st.none(), st.integers(1, 4)))
     nb = draw(st.one_of(st.none(), st.integers(1, 30)))
     return {"a": a, "b": b, "kind": kind, "step": step, "nb": nb, "slope": draw(gen.dyadic(-4, 4, 8)), "slope2": draw(gen.dyadic(-2, 2, 8)),
@@ -49,8 +49,17 @@ def sf_body(ctx, case):
         # integer-valued noise plus a huge tilt across the second axis: differences along the first axis are exact integers
         rng_ = gen.np_rng(case["seed"])
         phase = rng_.integers(-8, 9, size=(a, b)).astype(float) + 2.0 ** rng_.integers(14, 30) * cols
+    elif case["kind"] == "counts":
+        # quantised data in its native integer container (DM commands, detector counts, nm-quantised phase maps)
+        rng_ = gen.np_rng(case["seed"])
+        dt = ["int8", "uint8", "int16", "uint16", "int32"][case["seed"] % 5]
+        hi = {"int8": 100, "uint8": 250, "int16": 30000, "uint16": 60000, "int32": 2 * 10**9}[dt]
+        lo = 0 if dt.startswith("u") else -hi
+        phase = rng_.integers(lo, hi + 1, size=(a, b)).astype(dt)
+        ctx.classes["counts_" + dt] += 1
     else:
         phase = gen.np_rng(case["seed"]).normal(size=(a, b))
+    exact = phase.astype(np.float64)                      # the numbers, whatever container they came in
     st_ = 1 if step is None else step
     ctx.case(case, nontrivial=(a != b) or st_ >= 2, classes=[case["kind"], "square" if a == b else "non_square", "step%d" % st_, "nb_default" if nb is None else "nb_given"])
     p0 = phase.copy()
@@ -63,7 +72,8 @@ def sf_body(ctx, case):
     for n_ in range(1, 16):
         g = np.full(n_, 1.2345e131)
         del g
-    xm_expected = int(min(b / 4.0 if nb is None else nb, b / st_ - 1))
+    # the lags are shifts along the FIRST axis: the requested number of points is honoured as far as such lags exist
+    xm_expected = int(min(a / 4.0 if nb is None else nb, a / st_ - 1))
     g = np.full(max(xm_expected, 1), 1.2345e131)
     del g
     with np.errstate(all="ignore"):
@@ -72,7 +82,8 @@ def sf_body(ctx, case):
             warnings.simplefilter("ignore")
             sf = sc.calculate_structure_function(phase, **kw)
     ctx.equal(phase, p0, "calculate_structure_function modified its input")
-    ctx.require(sf.ndim == 1 and len(sf) == max(xm_expected, 0), "structure function length %d, expected min(nbOfPoint, shape[1]/step - 1) = %d" % (len(sf), xm_expected))
+    ctx.require(sf.ndim == 1 and len(sf) == max(xm_expected, 0), "structure function of a %d x %d array (nbOfPoint=%r, step=%r) has %d points, expected min(nbOfPoint or shape[0]/4, shape[0]/step - 1) = %d" % (a, b, nb, step, len(sf), xm_expected))
+    ctx.require(bool(np.all(np.isfinite(sf))), "structure function of a finite %d x %d array contains non-finite values (lags that do not exist along the first axis): %r" % (a, b, sf.tolist()[:8]))
     if len(sf) == 0:
         return
     ctx.require(sf[0] == 0, "structure function at lag 0 is %r, expected 0" % float(sf[0]))
@@ -81,10 +92,12 @@ def sf_body(ctx, case):
         if lag >= a:
             ctx.classes["lag_beyond_first_axis_not_judged"] += 1
             continue
-        want = float(np.mean((phase[:-lag, :] - phase[lag:, :]) ** 2))
+        want = float(np.mean((exact[:-lag, :] - exact[lag:, :]) ** 2))
         ctx.close(sf[j], want, 1e-12, "sf[j] == mean squared difference at lag j*step", scale=max(want, 1e-300), name="sf vs definition")
         if case["kind"] == "ramp":
             ctx.require(sf[j] == (case["slope"] * lag) ** 2, "ramp of slope %r: sf[%d] = %r, expected a^2 (j step)^2 = %r" % (case["slope"], j, float(sf[j]), (case["slope"] * lag) ** 2))
+    if case["kind"] == "counts":
+        return
     # quadratic in amplitude
     k = case["k"]
     with np.errstate(all="ignore"):
@@ -142,6 +155,8 @@ def tps_body(ctx, case):
         return
     ctx.close(mean_tps, want, 1e-10, "temporal power spectrum == mean over sub-apertures of |DFT along frames|^2", scale=sc, name="tps vs definition")
     ctx.close(err, want_err, 1e-9, "temporal power spectrum error == standard error over sub-apertures", scale=sc, name="tps error vs definition")
+    if case["kind"] == "counts":
+        return
     # quadratic in amplitude
     k = case["k"]
     mk, ek = tp.calc_slope_temporalps(k * data.astype(np.float64))
